@@ -19,7 +19,7 @@ use super::c01::{yof, MAX_YEAR, MIN_YEAR};
 use super::c13::err_kind;
 use crate::ctx::*;
 use chrono::format::ParseError;
-use chrono::{DateTime, Datelike, FixedOffset, Month, NaiveDate, NaiveDateTime, NaiveTime, TimeZone, Timelike, Utc, Weekday};
+use chrono::{DateTime, Datelike, FixedOffset, Local, Month, NaiveDate, NaiveDateTime, NaiveTime, TimeZone, Timelike, Utc, Weekday};
 use std::fmt::Write as _;
 
 const NS: u32 = 1_000_000_000;
@@ -732,6 +732,84 @@ pub fn run(c: &mut Ctx) {
         if i < 1 {
             c.sample(&format!("DateTime<Utc> {} -> {:?} -> {}", sdt(&v), txt(&dsp), rd_dtu(txt(&dsp))));
         }
+    }
+
+    // ---------------------------------------------------------------- DateTime<Local>
+    // theorem `roundtrip_DateTime_Local`: a `Local` value prints like the `DateTime<FixedOffset>` with the
+    // offset the zone gave it and reads back as the same instant with that offset.  `Local` follows the
+    // `TZ` variable; each zone is run on a fresh thread (the per-thread cache), values are drawn here.
+    for tzname in ["Asia/Kolkata", "America/St_Johns", "Australia/Lord_Howe", "Pacific/Kiritimati", "Europe/Amsterdam", "UTC"] {
+        let mut vals: Vec<NaiveDateTime> = vec![];
+        for _ in 0..c.n(300, 3000) {
+            let (d, _) = if c.rng.chance(1, 2) {
+                (NaiveDate::from_yo_opt(c.rng.range(1850, 2100) as i32, c.rng.range(1, 365) as u32).unwrap(), "")
+            } else {
+                gen_date(c)
+            };
+            let (t, _, _, strict) = gen_time(c);
+            if strict {
+                vals.push(d.and_time(t));
+            }
+        }
+        vals.extend([NaiveDateTime::MIN, NaiveDateTime::MAX]);
+        let old = std::env::var("TZ").ok();
+        std::env::set_var("TZ", tzname);
+        // (value as `<utc> <off>`, Debug, Display, same for the FixedOffset view, FromStr of both texts, round trips)
+        type Row = (String, i32, Text, Text, Text, Text, String, String, bool, bool);
+        let rows: Vec<Row> = std::thread::spawn(move || {
+            vals.iter()
+                .map(|v| {
+                    let l: DateTime<Local> = Local.from_utc_datetime(v);
+                    let f = l.fixed_offset();
+                    let rd = |s: &str| pr(guard(|| s.parse::<DateTime<Local>>()), |b| sz(&b.fixed_offset()));
+                    let (dbg, dsp) = (dbg_text(&l), dsp_text(&l));
+                    let back = |x: &Text| guard(|| txt(x).parse::<DateTime<Local>>().ok().map(|b| b == l && b.fixed_offset().offset().local_minus_utc() == f.offset().local_minus_utc())) == Ok(Some(true));
+                    (sz(&f), f.offset().local_minus_utc(), dbg.clone(), dsp.clone(), dbg_text(&f), dsp_text(&f), both(&dbg, &rd), both(&dsp, &rd), back(&dbg), back(&dsp))
+                })
+                .collect()
+        })
+        .join()
+        .unwrap_or_default();
+        match old {
+            Some(v) => std::env::set_var("TZ", v),
+            None => std::env::remove_var("TZ"),
+        }
+        if rows.is_empty() {
+            c.fail("DateTime<Local> worker thread panicked", tzname);
+        }
+        let mut f25_local = 0;
+        for (k, (val, off, dbg, dsp, fdbg, fdsp, bdbg, bdsp, back_dbg, back_dsp)) in rows.iter().enumerate() {
+            c.op(&format!("tx.dtl {}", val), &format!("{} | {}", bdbg, bdsp));
+            c.count(if off % 60 != 0 { "dtl:offset-with-seconds(outside property)" } else { "dtl:whole-minute-offset" });
+            if dbg != fdbg || dsp != fdsp {
+                c.fail("DateTime<Local> text differs from the text of its FixedOffset view", &format!("TZ={} {} {:?} / {:?} vs {:?} / {:?}", tzname, val, txt(dbg), txt(dsp), txt(fdbg), txt(fdsp)));
+            }
+            if off % 60 == 0 {
+                let z: DateTime<FixedOffset> = match txt(fdbg).parse() {
+                    Ok(z) => z,
+                    Err(_) => {
+                        // only the F25 band (wall clock outside NaiveDate's range) may fail to read back
+                        f25_local += 1;
+                        c.count("dtl:out-of-range-local-date(known finding F25)");
+                        if !(bdbg.ends_with("err OutOfRange") && bdsp.ends_with("err OutOfRange")) {
+                            c.fail("DateTime<Local> text is rejected with another error than OutOfRange", &format!("TZ={} {} -> {} | {}", tzname, val, bdbg, bdsp));
+                        }
+                        continue;
+                    }
+                };
+                let _ = z;
+                if !back_dbg {
+                    c.fail("DateTime<Local> Debug does not parse back", &format!("TZ={} {} text {:?}", tzname, val, txt(dbg)));
+                }
+                if !back_dsp {
+                    c.fail("DateTime<Local> Display does not parse back", &format!("TZ={} {} text {:?}", tzname, val, txt(dsp)));
+                }
+            }
+            if k == 0 {
+                c.sample(&format!("DateTime<Local> TZ={} {} -> {:?} -> {}", tzname, val, txt(dsp), bdsp));
+            }
+        }
+        let _ = f25_local;
     }
 
     // ---------------------------------------------------------------- FixedOffset
